@@ -150,9 +150,17 @@ def build_component(falcon, Handled, asgi, idx, shape, naming):
     return type('MW%d' % idx, (), ns)()
 
 
-def build_resource(falcon, Handled, asgi, hook_shape, class_level):
+def build_resource(falcon, Handled, asgi, hook_shape, class_level, hier=None):
     """hook_shape: tuple of is_before flags, outermost first. The outermost `class_level`
-    layers are applied as class decorators, the rest as method decorators."""
+    layers are applied as class decorators, the rest as method decorators.
+
+    hier = (counts, mixin, suffix): a resource class HIERARCHY.  counts = (k_top, ..., k_base):
+    the outermost k_top layers are class-level hooks on the most derived class, the next ones on
+    its base, ..., k_base on the class at the bottom; the remaining layers are method-level hooks
+    on the responder function itself.  The responder is defined in the bottom class, or (mixin)
+    in a separate mixin class that the bottom class merely inherits from - so class-level hooks
+    always have to reach a responder the decorated class INHERITS when depth > 1 or mixin.
+    suffix: the responder is on_get_v, routed with add_route(..., suffix='v')."""
     def mk_hook(j, before):
         if asgi:
             if before:
@@ -189,6 +197,27 @@ def build_resource(falcon, Handled, asgi, hook_shape, class_level):
             State.trace.append([0, [S_RESPONDER, 0], code])
             perform(falcon, Handled, [S_RESPONDER, 0], code, resp)
     layers = list(enumerate(hook_shape))
+    if hier is not None:
+        counts, mixin, suffix = hier
+        name = 'on_get_v' if suffix else 'on_get'
+        n_class = sum(counts)
+        for j, before in reversed(layers[n_class:]):
+            on_get = (falcon.before if before else falcon.after)(mk_hook(j, before))(on_get)
+        if mixin:
+            mix = type('Mix', (), {name: on_get, 'helper': lambda self: None})
+            cls = type('B0', (mix,), {})
+        else:
+            cls = type('B0', (), {name: on_get})
+        # bottom class first: its segment is the LAST of the class-level layers
+        pos = n_class
+        for depth, k in enumerate(reversed(counts)):
+            if depth > 0:
+                cls = type('B%d' % depth, (cls,), {})
+            seg = layers[pos - k:pos]
+            pos -= k
+            for j, before in reversed(seg):
+                cls = (falcon.before if before else falcon.after)(mk_hook(j, before))(cls)
+        return cls()
     # innermost first
     for j, before in reversed(layers[class_level:]):
         on_get = (falcon.before if before else falcon.after)(mk_hook(j, before))(on_get)
@@ -206,12 +235,13 @@ class AppCache:
         self.limit = limit
         self.Handled, self.HandledChild = make_handled(falcon)
 
-    def get(self, asgi, indep, shapes, naming, hook_shape, class_level, split=None):
+    def get(self, asgi, indep, shapes, naming, hook_shape, class_level, split=None, hier=None):
         """Returns (app, oks): oks = which add_middleware calls returned normally.
         split: [(n, kind)] - the first entry is the constructor argument, the others are
         add_middleware calls; kind 0 list, 1 bare component (n == 1), 2 None (n == 0), 3 tuple."""
         split = tuple(tuple(x) for x in (split or [(len(shapes), 0)]))
-        key = (asgi, indep, shapes, naming, hook_shape, class_level, split)
+        hier = None if hier is None else (tuple(hier[0]), bool(hier[1]), bool(hier[2]))
+        key = (asgi, indep, shapes, naming, hook_shape, class_level, split, hier)
         app = self.cache.get(key)
         if app is not None:
             return app
@@ -239,7 +269,10 @@ class AppCache:
                 oks.append(1)
             except TypeError:
                 oks.append(0)
-        app.add_route('/r', build_resource(falcon, Handled, asgi, hook_shape, class_level))
+        if hier is not None and hier[2]:
+            app.add_route('/r', build_resource(falcon, Handled, asgi, hook_shape, class_level, hier), suffix='v')
+        else:
+            app.add_route('/r', build_resource(falcon, Handled, asgi, hook_shape, class_level, hier))
         if asgi:
             async def sink(req, resp, **kw):
                 code = State.script[(S_RESPONDER, 0)]
@@ -294,12 +327,13 @@ def case_key(c):
 
 
 def mk_case(asgi, indep, comps, meta=0, route=0, hooks=(), responder=0, naming=None, class_level=0,
-            variant=0, split=None):
+            variant=0, split=None, hier=None):
     """comps: list of [req, rsrc, resp, startup, shutdown] (action codes, -1 = absent)."""
     return {'asgi': int(asgi), 'indep': int(indep), 'comps': [list(c) for c in comps], 'meta': int(meta),
             'route': route, 'hooks': [list(h) for h in hooks], 'responder': responder,
             'naming': list(naming) if naming else [0] * len(comps), 'class_level': class_level,
-            'variant': variant, 'split': [list(x) for x in (split or [[len(comps), 0]])]}
+            'variant': variant, 'split': [list(x) for x in (split or [[len(comps), 0]])],
+            'hier': None if hier is None else [list(hier[0]), int(hier[1]), int(hier[2])]}
 
 
 def wire_batches(c):
@@ -349,7 +383,7 @@ def set_script(c):
 def get_app(cache, c):
     return cache.get(bool(c['asgi']), bool(c['indep']), tuple(shape_of(x) for x in c['comps']),
                      tuple(c['naming']), tuple(bool(h[0]) for h in c['hooks']), c['class_level'],
-                     c.get('split'))
+                     c.get('split'), c.get('hier'))
 
 
 _ENV = {}
@@ -620,8 +654,38 @@ def random_case(rng, maxn=5, lifespan=False):
                 meta=rng.random() < 0.05, route=rng.choice([0, 0, 0, 1, 2, 3]), hooks=hooks,
                 responder=0 if rng.random() < 0.5 else rng.choice(ACTIONS),
                 naming=[rng.randint(0, 1) for _ in comps], class_level=rng.randint(0, len(hooks)),
-                variant=rng.randint(0, 5), split=random_split(rng, len(comps)) if rng.random() < 0.6 else None)
+                variant=rng.randint(0, 5), split=random_split(rng, len(comps)) if rng.random() < 0.6 else None,
+                hier=random_hier(rng, len(hooks)) if rng.random() < 0.6 else None)
     return c
+
+
+def random_hier(rng, nhooks):
+    """1-3 class levels; how many of the outermost hook layers sit at class level on each"""
+    depth = rng.randint(1, 3)
+    n_class = rng.randint(0, nhooks)
+    cuts = sorted(rng.randint(0, n_class) for _ in range(depth - 1))
+    counts = [b - a for a, b in zip([0] + cuts, cuts + [n_class])]
+    return [counts, rng.random() < 0.4, rng.random() < 0.3]
+
+
+def hier_sweep(modes):
+    """every distribution of a 4-layer hook tower (before, after, before, after) over class-level
+    hooks of a 1-3 level resource hierarchy / method-level hooks, with and without a mixin that
+    defines the responder, plain and suffixed responders; a raise in every layer"""
+    hooks = [[1, 0], [0, 0], [1, 0], [0, 0]]
+    comps = [[0, 0, 0, -1, -1]]
+    for depth in (1, 2, 3):
+        for counts in itertools.product(range(5), repeat=depth):
+            if sum(counts) > 4:
+                continue
+            for mixin in (0, 1):
+                for suffix in (0, 1):
+                    for asgi, indep in modes:
+                        yield mk_case(asgi, indep, comps, hooks=hooks, hier=[list(counts), mixin, suffix])
+                    for j in range(4):
+                        hk = [list(h) for h in hooks]
+                        hk[j][1] = 3
+                        yield mk_case(j % 2, 1, comps, hooks=hk, hier=[list(counts), mixin, suffix])
 
 
 def random_split(rng, n):
@@ -738,6 +802,9 @@ def main(ctx):
     # 2b. stacks built in several steps: App(middleware=...) then add_middleware(...) calls
     cases = list(split_sweep(MODES))
     r.check(cases, 'split-sweep')
+    # 2c. class-level hooks on resource class hierarchies (inherited responders, mixins, suffixes)
+    cases = list(hier_sweep(MODES))
+    r.check(cases, 'hier-sweep')
     # 3. random deep stacks
     n = 3000 if quick else 40000
     cases = [random_case(ctx.rng) for _ in range(n)]
